@@ -13,7 +13,11 @@ FAMILIES = ['planar', 'rotatedplanar', 'toric', 'rotatedtoric', 'color666', 'bas
 
 def run(ctx):
     done = []
+    import os
+    only = os.environ.get('QV_FAMILIES')
     for fam in FAMILIES:
+        if only and fam not in only.split(','):
+            continue
         try:
             m = importlib.import_module('qv.families.' + fam)
         except ImportError:
